@@ -149,3 +149,800 @@ Qed.
 
 Lemma le_dec_enc_small : forall w v, v < pow256 w -> le_dec (le_enc w v) = v.
 Proof. intros w v Hv. rewrite le_dec_enc. apply N.mod_small. exact Hv. Qed.
+
+(* ------------------------------------------------------------------------- *)
+(* integer codecs                                                             *)
+(* ------------------------------------------------------------------------- *)
+Lemma unpack_int_spec : forall signed w bs, List.length bs = w ->
+  unpack_int signed w bs
+  = Ok (if signed && (pow256 w / 2 <=? le_dec bs)
+        then (Z.of_N (le_dec bs) - Z.of_N (pow256 w))%Z else Z.of_N (le_dec bs)).
+Proof.
+  intros signed w bs Hl. unfold unpack_int. rewrite Hl, Nat.eqb_refl. cbn [negb].
+  destruct (signed && (pow256 w / 2 <=? le_dec bs)); reflexivity.
+Qed.
+
+Lemma unpack_int_len : forall signed w bs z, unpack_int signed w bs = Ok z -> List.length bs = w.
+Proof.
+  intros signed w bs z H. unfold unpack_int in H.
+  destruct (Nat.eqb (List.length bs) w) eqn:E; cbn [negb] in H; [|discriminate].
+  apply Nat.eqb_eq. exact E.
+Qed.
+
+Lemma pack_int_unsigned : forall w z, (0 <= z < Z.of_N (pow256 w))%Z ->
+  pack_int false w (VInt z) = Ok (le_enc w (Z.to_N z)).
+Proof.
+  intros w z Hz. unfold pack_int. cbv zeta.
+  destruct ((0 <=? z)%Z && (z <? Z.of_N (pow256 w))%Z) eqn:E; [|lia].
+  rewrite Z.mod_small by lia. reflexivity.
+Qed.
+
+Lemma pack_int_signed : forall w z,
+  (- (Z.of_N (pow256 w) / 2) <= z < Z.of_N (pow256 w) / 2)%Z ->
+  pack_int true w (VInt z) = Ok (le_enc w (Z.to_N (z mod Z.of_N (pow256 w)))).
+Proof.
+  intros w z Hz. unfold pack_int. cbv zeta.
+  destruct ((- (Z.of_N (pow256 w) / 2) <=? z)%Z && (z <? Z.of_N (pow256 w) / 2)%Z) eqn:E; [|lia].
+  reflexivity.
+Qed.
+
+Lemma signed_mod : forall w z, w <> 0%nat ->
+  (- (Z.of_N (pow256 w) / 2) <= z < Z.of_N (pow256 w) / 2)%Z ->
+  Z.to_N (z mod Z.of_N (pow256 w)) < pow256 w
+  /\ (if (pow256 w / 2 <=? Z.to_N (z mod Z.of_N (pow256 w)))%N
+      then Z.of_N (Z.to_N (z mod Z.of_N (pow256 w))) - Z.of_N (pow256 w)
+      else Z.of_N (Z.to_N (z mod Z.of_N (pow256 w))))%Z = z.
+Proof.
+  intros w z Hw Hz. destruct (pow256_even w Hw) as [q [Hq HP]].
+  remember (pow256 w) as P eqn:EP. clear EP.
+  destruct (Z.ltb z 0) eqn:Hneg.
+  - assert (Hm : (z mod Z.of_N P = z + Z.of_N P)%Z).
+    { rewrite <- (Z_mod_plus_full z 1 (Z.of_N P)). rewrite Z.mul_1_l. apply Z.mod_small. lia. }
+    rewrite Hm. split; [lia|].
+    destruct (P / 2 <=? Z.to_N (z + Z.of_N P)) eqn:E; lia.
+  - assert (Hm : (z mod Z.of_N P = z)%Z) by (apply Z.mod_small; lia).
+    rewrite Hm. split; [lia|].
+    destruct (P / 2 <=? Z.to_N z) eqn:E; lia.
+Qed.
+
+Lemma int_roundtrip_gen : forall (signed : bool) w z, w <> 0%nat ->
+  (if signed then (- (Z.of_N (pow256 w) / 2) <= z < Z.of_N (pow256 w) / 2)%Z
+   else (0 <= z < Z.of_N (pow256 w))%Z) ->
+  exists bs, pack_int signed w (VInt z) = Ok bs /\ List.length bs = w /\ all_bytes bs = true
+             /\ unpack_int signed w bs = Ok z.
+Proof.
+  intros signed w z Hw Hz. destruct signed.
+  - exists (le_enc w (Z.to_N (z mod Z.of_N (pow256 w)))).
+    destruct (signed_mod w z Hw Hz) as [Hlt Hval].
+    split; [apply pack_int_signed; exact Hz|].
+    split; [apply le_enc_length|]. split; [apply le_enc_bytes|].
+    rewrite unpack_int_spec by apply le_enc_length.
+    rewrite le_dec_enc_small by exact Hlt. cbn [andb].
+    f_equal.
+    destruct (pow256 w / 2 <=? Z.to_N (z mod Z.of_N (pow256 w))); exact Hval.
+  - exists (le_enc w (Z.to_N z)).
+    split; [apply pack_int_unsigned; exact Hz|].
+    split; [apply le_enc_length|]. split; [apply le_enc_bytes|].
+    rewrite unpack_int_spec by apply le_enc_length. cbn [andb].
+    rewrite le_dec_enc_small by lia. f_equal. lia.
+Qed.
+
+Lemma int_roundtrip : forall (signed : bool) w z,
+  (w = 1 \/ w = 2 \/ w = 4 \/ w = 8)%nat ->
+  (if signed then (- (Z.of_N (pow256 w) / 2) <= z < Z.of_N (pow256 w) / 2)%Z
+   else (0 <= z < Z.of_N (pow256 w))%Z) ->
+  exists bs, pack_int signed w (VInt z) = Ok bs /\ List.length bs = w /\ all_bytes bs = true
+             /\ unpack_int signed w bs = Ok z.
+Proof.
+  intros signed w z Hw Hz. apply int_roundtrip_gen; [lia | exact Hz].
+Qed.
+
+(* ------------------------------------------------------------------------- *)
+(* sequential reading of the spec (offset-free), equivalent to the offsets    *)
+(* ------------------------------------------------------------------------- *)
+Fixpoint sdec (l : layout) (data : bytes) : fields :=
+  match l with
+  | [] => []
+  | (n, t) :: r => (n, t, spec_value t (firstn (width t) data)) :: sdec r (skipn (width t) data)
+  end.
+
+Definition item_valid (t : fty) (data : bytes) : bool :=
+  match t with TCh n => utf8_valid (firstn n data) | _ => true end.
+
+Fixpoint sch (l : layout) (data : bytes) : bool :=
+  match l with
+  | [] => true
+  | (_, t) :: r => item_valid t data && sch r (skipn (width t) data)
+  end.
+
+Lemma spec_decode_seq : forall l off data, spec_decode l off data = sdec l (skipn off data).
+Proof.
+  intros l. induction l as [|[n t] r IH]; intros off data.
+  - reflexivity.
+  - cbn [spec_decode sdec]. unfold slice. rewrite IH, skipn_add. reflexivity.
+Qed.
+
+Lemma ch_valid_seq : forall l off data, ch_valid l off data = sch l (skipn off data).
+Proof.
+  intros l. induction l as [|[n t] r IH]; intros off data.
+  - reflexivity.
+  - cbn [ch_valid sch]. rewrite IH, skipn_add. unfold item_valid, slice. reflexivity.
+Qed.
+
+Lemma size_app : forall a b, size (a ++ b) = (size a + size b)%nat.
+Proof.
+  intros a b. induction a as [|[n t] a IH].
+  - reflexivity.
+  - cbn [app]. unfold size in *. cbn [fold_right snd]. rewrite IH. lia.
+Qed.
+
+Lemma size_cons : forall n t r, size ((n, t) :: r) = (width t + size r)%nat.
+Proof. reflexivity. Qed.
+
+Lemma sdec_app : forall a b data, sdec (a ++ b) data = sdec a data ++ sdec b (skipn (size a) data).
+Proof.
+  intros a. induction a as [|[n t] a IH]; intros b data.
+  - reflexivity.
+  - cbn [app sdec]. rewrite IH, size_cons, skipn_add. reflexivity.
+Qed.
+
+Lemma sch_app : forall a b data, sch (a ++ b) data = sch a data && sch b (skipn (size a) data).
+Proof.
+  intros a. induction a as [|[n t] a IH]; intros b data.
+  - reflexivity.
+  - cbn [app sch]. rewrite IH, size_cons, skipn_add, andb_assoc. reflexivity.
+Qed.
+
+Lemma layout_of_sdec : forall l data, layout_of (sdec l data) = l.
+Proof.
+  intros l. induction l as [|[n t] r IH]; intros data.
+  - reflexivity.
+  - cbn [sdec layout_of map fst snd]. f_equal. apply IH.
+Qed.
+
+Lemma layout_of_fresh : forall l, layout_of (fresh_fields l) = l.
+Proof.
+  intros l. induction l as [|[n t] r IH].
+  - reflexivity.
+  - unfold layout_of, fresh_fields in *. cbn [map fst snd]. f_equal. exact IH.
+Qed.
+
+Lemma layout_of_app : forall a b, layout_of (a ++ b) = layout_of a ++ layout_of b.
+Proof. intros a b. unfold layout_of. apply map_app. Qed.
+
+(* Padding fields keep their previous value: the only way the old field list matters *)
+Definition pad0_item (x : string * fty * fval) : bool :=
+  match snd (fst x), snd x with
+  | TPad _, VInt 0 => true
+  | TPad _, _ => false
+  | _, _ => true
+  end.
+Definition pad0 (fs : fields) : bool := forallb pad0_item fs.
+
+Lemma pad0_fresh : forall l, pad0 (fresh_fields l) = true.
+Proof.
+  intros l. induction l as [|[n t] r IH].
+  - reflexivity.
+  - unfold pad0, fresh_fields in *. cbn [map forallb]. rewrite IH, andb_true_r.
+    destruct t; reflexivity.
+Qed.
+
+Lemma pad0_sdec : forall l data, pad0 (sdec l data) = true.
+Proof.
+  intros l. induction l as [|[n t] r IH]; intros data.
+  - reflexivity.
+  - cbn [sdec]. unfold pad0 in *. cbn [forallb]. rewrite IH, andb_true_r.
+    unfold pad0_item. cbn [fst snd]. destruct t; reflexivity.
+Qed.
+
+(* ------------------------------------------------------------------------- *)
+(* unpack_item / unpack_fields follow the spec                                *)
+(* ------------------------------------------------------------------------- *)
+Lemma unpack_item_spec : forall t data,
+  (width t <= List.length data)%nat -> item_valid t data = true ->
+  unpack_item t data
+  = Ok (match t with TPad _ => None | _ => Some (spec_value t (firstn (width t) data)) end).
+Proof.
+  intros t data Hlen Hv. destruct t as [w|w|w|n|n]; cbn [width] in Hlen;
+    cbn [unpack_item width spec_value].
+  - rewrite unpack_int_spec by (apply firstn_length_le; exact Hlen). reflexivity.
+  - rewrite unpack_int_spec by (apply firstn_length_le; exact Hlen). cbn [andb bind].
+    destruct (pow256 w / 2 <=? le_dec (firstn w data)); reflexivity.
+  - rewrite unpack_int_spec by (apply firstn_length_le; exact Hlen). reflexivity.
+  - reflexivity.
+  - destruct (Nat.ltb (List.length data) n) eqn:E; [apply Nat.ltb_lt in E; lia|].
+    cbn [item_valid] in Hv. rewrite Hv. reflexivity.
+Qed.
+
+Lemma unpack_fields_spec : forall fs data,
+  pad0 fs = true -> (size (layout_of fs) <= List.length data)%nat ->
+  sch (layout_of fs) data = true ->
+  unpack_fields fs data = Ok (sdec (layout_of fs) data, skipn (size (layout_of fs)) data).
+Proof.
+  intros fs. induction fs as [|[[n t] v] rest IH]; intros data Hp Hlen Hv.
+  - reflexivity.
+  - unfold pad0 in Hp. cbn [forallb] in Hp. apply andb_true_iff in Hp. destruct Hp as [Hp0 Hp].
+    change (layout_of ((n, t, v) :: rest)) with ((n, t) :: layout_of rest) in *.
+    rewrite size_cons in *. cbn [sch] in Hv. apply andb_true_iff in Hv. destruct Hv as [Hv0 Hv].
+    cbn [unpack_fields sdec].
+    rewrite unpack_item_spec by (try exact Hv0; lia). cbn [bind].
+    rewrite IH; [| exact Hp | rewrite skipn_length; lia | exact Hv].
+    cbn [bind]. rewrite skipn_add. f_equal. f_equal. f_equal.
+    unfold pad0_item in Hp0. cbn [fst snd] in Hp0.
+    destruct t as [w|w|w|k|k]; try reflexivity.
+    cbn [spec_value]. destruct v as [z|s]; [|discriminate].
+    destruct z; try discriminate. reflexivity.
+Qed.
+
+Lemma unpack_fresh_spec : forall l data,
+  (size l <= List.length data)%nat -> sch l data = true ->
+  unpack_fields (fresh_fields l) data = Ok (sdec l data, skipn (size l) data).
+Proof.
+  intros l data Hlen Hv.
+  rewrite unpack_fields_spec; rewrite ?layout_of_fresh; auto using pad0_fresh.
+Qed.
+
+Lemma decode_fixed : forall l data,
+  widths_ok l = true -> (size l <= List.length data)%nat -> ch_valid l 0 data = true ->
+  decode (KFixed l) data = Ok (spec_decode l 0 data).
+Proof.
+  intros l data _ Hlen Hv. rewrite ch_valid_seq in Hv. rewrite spec_decode_seq.
+  cbn [skipn] in *. unfold decode. rewrite unpack_fresh_spec by assumption. reflexivity.
+Qed.
+
+Lemma size_suffixed : forall blk i, size (suffixed blk i) = size blk.
+Proof.
+  intros blk i. unfold suffixed, size. induction blk as [|[n t] blk IHb]; [reflexivity|].
+  cbn [map fold_right snd]. rewrite IHb. reflexivity.
+Qed.
+
+Lemma size_blocks_from : forall blk c s, size (blocks_from blk s c) = (c * size blk)%nat.
+Proof.
+  intros blk c. induction c as [|c IH]; intros s.
+  - reflexivity.
+  - cbn [blocks_from]. rewrite size_app, IH, size_suffixed. reflexivity.
+Qed.
+
+Lemma size_counted : forall hdr blk c, size (counted_layout hdr blk c) = (size hdr + c * size blk)%nat.
+Proof.
+  intros hdr blk c. unfold counted_layout, blocks. rewrite size_app, size_blocks_from. reflexivity.
+Qed.
+
+Lemma decode_counted : forall hdr cnt maxc blk data c,
+  widths_ok hdr = true -> widths_ok blk = true ->
+  getf (spec_decode hdr 0 data) cnt = Some (VInt (Z.of_nat c)) ->
+  match maxc with Some m => (Z.of_nat c <= Z.of_N m)%Z | None => True end ->
+  (size (counted_layout hdr blk c) <= List.length data)%nat ->
+  ch_valid (counted_layout hdr blk c) 0 data = true ->
+  decode (KCounted hdr cnt maxc blk) data = Ok (spec_decode (counted_layout hdr blk c) 0 data).
+Proof.
+  intros hdr cnt maxc blk data c _ _ Hget Hmax Hlen Hv.
+  rewrite ch_valid_seq in Hv. rewrite spec_decode_seq in *. cbn [skipn] in *.
+  unfold counted_layout in *. rewrite size_app in Hlen. rewrite sch_app in Hv.
+  apply andb_true_iff in Hv. destruct Hv as [Hvh Hvb].
+  unfold decode. rewrite unpack_fresh_spec by (try exact Hvh; lia). cbn [bind].
+  rewrite Hget.
+  assert (Hm : match maxc with Some m => (Z.of_N m <? Z.of_nat c)%Z | None => false end = false).
+  { destruct maxc as [m|]; [lia | reflexivity]. }
+  rewrite Hm, Nat2Z.id.
+  rewrite unpack_fields_spec.
+  - rewrite layout_of_app, layout_of_sdec, layout_of_fresh. reflexivity.
+  - unfold pad0. rewrite forallb_app. fold (pad0 (sdec hdr data)).
+    fold (pad0 (fresh_fields (blocks blk c))). rewrite pad0_sdec, pad0_fresh. reflexivity.
+  - rewrite layout_of_app, layout_of_sdec, layout_of_fresh, size_app. exact Hlen.
+  - rewrite layout_of_app, layout_of_sdec, layout_of_fresh, sch_app, Hvh, Hvb. reflexivity.
+Qed.
+
+(* ------------------------------------------------------------------------- *)
+(* offsets of repeated blocks and of MON-VER                                  *)
+(* ------------------------------------------------------------------------- *)
+Lemma layout_offsets_app : forall a b off,
+  layout_offsets (a ++ b) off = layout_offsets a off ++ layout_offsets b (off + size a).
+Proof.
+  intros a. induction a as [|[n t] a IH]; intros b off.
+  - cbn [app layout_offsets size fold_right]. rewrite Nat.add_0_r. reflexivity.
+  - cbn [app layout_offsets]. rewrite IH, size_cons, Nat.add_assoc. reflexivity.
+Qed.
+
+Lemma blocks_from_offsets : forall blk c s off,
+  layout_offsets (blocks_from blk s c) off
+  = concat (map (fun j => layout_offsets (suffixed blk (s + j)) (off + j * size blk)) (seq 0 c)).
+Proof.
+  intros blk c. induction c as [|c IH]; intros s off.
+  - reflexivity.
+  - cbn [blocks_from]. rewrite layout_offsets_app, size_suffixed, IH.
+    cbn [seq map concat]. rewrite <- seq_shift, map_map.
+    rewrite Nat.add_0_r. cbn [Nat.mul]. rewrite Nat.add_0_r. f_equal. f_equal.
+    apply map_ext. intros j. f_equal; [f_equal|]; lia.
+Qed.
+
+Lemma blocks_offsets : forall blk c off,
+  layout_offsets (blocks blk c) off
+  = concat (map (fun i => layout_offsets (suffixed blk i) (off + i * size blk)) (seq 0 c)).
+Proof.
+  intros blk c off. unfold blocks. rewrite blocks_from_offsets. reflexivity.
+Qed.
+
+Lemma ext_offsets : forall (g : nat -> string) n s,
+  layout_offsets (map (fun i => (g i, TCh 30)) (seq s n)) (40 + 30 * s)
+  = map (fun i => (g i, 40 + 30 * i, 30, KCh)%nat) (seq s n).
+Proof.
+  intros g n. induction n as [|n IH]; intros s.
+  - reflexivity.
+  - cbn [seq map layout_offsets width kind_of]. f_equal.
+    replace (40 + 30 * s + 30)%nat with (40 + 30 * S s)%nat by lia. apply IH.
+Qed.
+
+Lemma monver_offsets : forall len,
+  layout_offsets (monver_layout len) 0
+  = [("swVersion"%string, 0, 30, KCh); ("hwVersion"%string, 30, 10, KCh)]%nat
+    ++ map (fun i => (append "extension_" (dec i), 40 + 30 * i, 30, KCh)%nat) (seq 0 ((len - 40) / 30)).
+Proof.
+  intros len. unfold monver_layout. cbn [app layout_offsets width kind_of].
+  change (0 + 30 + 10)%nat with (40 + 30 * 0)%nat.
+  rewrite (ext_offsets (fun i => append "extension_" (dec i))). reflexivity.
+Qed.
+
+Lemma size_ext : forall (g : nat -> string) (l : list nat),
+  size (map (fun i => (g i, TCh 30)) l) = (30 * List.length l)%nat.
+Proof.
+  intros g l. induction l as [|i l IH].
+  - reflexivity.
+  - cbn [map List.length]. rewrite size_cons, IH. cbn [width]. lia.
+Qed.
+
+Lemma size_monver : forall len, (40 <= len)%nat -> (size (monver_layout len) <= len)%nat.
+Proof.
+  intros len Hlen. unfold monver_layout. cbn [app]. rewrite !size_cons, size_ext, seq_length.
+  cbn [width]. pose proof (Nat.mul_div_le (len - 40) 30) as H. lia.
+Qed.
+
+Lemma decode_monver : forall data,
+  (40 <= List.length data)%nat -> ch_valid (monver_layout (List.length data)) 0 data = true ->
+  decode KMonVer data = Ok (spec_decode (monver_layout (List.length data)) 0 data).
+Proof.
+  intros data Hlen Hv. rewrite ch_valid_seq in Hv. rewrite spec_decode_seq. cbn [skipn] in *.
+  unfold decode. rewrite unpack_fresh_spec; [reflexivity | apply size_monver; exact Hlen | exact Hv].
+Qed.
+
+Lemma spec_value_le : forall w b0 b1 b2 b3,
+  spec_value (TU 4) [b0; b1; b2; b3] = VInt (Z.of_N (b0 + 256 * (b1 + 256 * (b2 + 256 * (b3 + 256 * 0)))))
+  /\ spec_value (TU w) [b0] = VInt (Z.of_N (b0 + 256 * 0)).
+Proof. intros w b0 b1 b2 b3. split; reflexivity. Qed.
+
+(* ------------------------------------------------------------------------- *)
+(* short payloads raise                                                       *)
+(* ------------------------------------------------------------------------- *)
+Lemma unpack_item_ok_len : forall t data ov,
+  match t with TPad _ => False | _ => True end ->
+  unpack_item t data = Ok ov -> (width t <= List.length data)%nat.
+Proof.
+  intros t data ov Hnp H. destruct t as [w|w|w|n|n]; cbn [unpack_item width] in *.
+  - destruct (unpack_int false w (firstn w data)) as [z|e] eqn:E; [|discriminate].
+    apply unpack_int_len in E. rewrite firstn_length in E. lia.
+  - destruct (unpack_int true w (firstn w data)) as [z|e] eqn:E; [|discriminate].
+    apply unpack_int_len in E. rewrite firstn_length in E. lia.
+  - destruct (unpack_int false w (firstn w data)) as [z|e] eqn:E; [|discriminate].
+    apply unpack_int_len in E. rewrite firstn_length in E. lia.
+  - contradiction.
+  - destruct (Nat.ltb (List.length data) n) eqn:E; [discriminate|].
+    apply Nat.ltb_ge in E. exact E.
+Qed.
+
+Lemma unpack_short : forall l data,
+  (forall n t, In (n, t) l -> match t with TPad _ => False | _ => True end) ->
+  (List.length data < size l)%nat ->
+  exists e, unpack_fields (fresh_fields l) data = Raise e.
+Proof.
+  intros l. induction l as [|[n t] r IH]; intros data Hnp Hlen.
+  - cbn in Hlen. lia.
+  - rewrite size_cons in Hlen.
+    change (fresh_fields ((n, t) :: r)) with ((n, t, default_val t) :: fresh_fields r).
+    cbn [unpack_fields].
+    destruct (unpack_item t data) as [ov|e] eqn:E.
+    + apply unpack_item_ok_len in E; [| apply (Hnp n t); left; reflexivity].
+      cbn [bind].
+      destruct (IH (skipn (width t) data)) as [e He].
+      * intros n' t' Hin. apply (Hnp n' t'). right. exact Hin.
+      * rewrite skipn_length. lia.
+      * rewrite He. cbn [bind]. exists e. reflexivity.
+    + cbn [bind]. exists e. reflexivity.
+Qed.
+
+Lemma decode_short : forall l data,
+  widths_ok l = true -> (List.length data < size l)%nat ->
+  (forall n t, In (n, t) l -> match t with TPad _ => False | _ => True end) ->
+  exists e, decode (KFixed l) data = Raise e.
+Proof.
+  intros l data _ Hlen Hnp. destruct (unpack_short l data Hnp Hlen) as [e He].
+  exists e. unfold decode. rewrite He. reflexivity.
+Qed.
+
+(* ------------------------------------------------------------------------- *)
+(* rstrip0 and zero padding                                                   *)
+(* ------------------------------------------------------------------------- *)
+Lemma zeros_length : forall k, List.length (zeros k) = k.
+Proof. intros k. unfold zeros. apply repeat_length. Qed.
+
+Lemma zeros_S : forall k, zeros (S k) = 0 :: zeros k.
+Proof. reflexivity. Qed.
+
+Lemma rstrip0_length : forall l, (List.length (rstrip0 l) <= List.length l)%nat.
+Proof.
+  intros l. induction l as [|b t IH].
+  - cbn. lia.
+  - cbn [rstrip0]. destruct (rstrip0 t) as [|x t'] eqn:E.
+    + destruct (b =? 0); cbn [List.length]; lia.
+    + cbn [List.length] in *. lia.
+Qed.
+
+Lemma rstrip0_pad : forall l,
+  rstrip0 l ++ zeros (List.length l - List.length (rstrip0 l)) = l.
+Proof.
+  intros l. induction l as [|b t IH].
+  - reflexivity.
+  - pose proof (rstrip0_length t) as Hl.
+    cbn [rstrip0]. destruct (rstrip0 t) as [|x t'] eqn:E.
+    + cbn [List.length app] in IH. rewrite Nat.sub_0_r in IH.
+      destruct (b =? 0) eqn:Eb.
+      * apply N.eqb_eq in Eb. subst b. cbn [List.length app].
+        replace (S (List.length t) - 0)%nat with (S (List.length t)) by lia.
+        rewrite zeros_S, IH. reflexivity.
+      * cbn [List.length app].
+        replace (S (List.length t) - 1)%nat with (List.length t) by lia.
+        rewrite IH. reflexivity.
+    + cbn [List.length] in *.
+      replace (S (List.length t) - S (S (List.length t')))%nat
+        with (List.length t - S (List.length t'))%nat by lia.
+      change ((b :: x :: t') ++ zeros (List.length t - S (List.length t')))
+        with (b :: ((x :: t') ++ zeros (List.length t - S (List.length t')))).
+      rewrite IH. reflexivity.
+Qed.
+
+Lemma rstrip0_zeros : forall k, rstrip0 (zeros k) = [].
+Proof.
+  intros k. induction k as [|k IH].
+  - reflexivity.
+  - rewrite zeros_S. cbn [rstrip0]. rewrite IH. reflexivity.
+Qed.
+
+Lemma rstrip0_app_zeros : forall s k, rstrip0 s = s -> rstrip0 (s ++ zeros k) = s.
+Proof.
+  intros s. induction s as [|b t IH]; intros k Hs.
+  - cbn [app]. apply rstrip0_zeros.
+  - cbn [rstrip0] in Hs. cbn [app rstrip0].
+    destruct (rstrip0 t) as [|x t'] eqn:E.
+    + destruct (b =? 0) eqn:Eb; [discriminate|].
+      injection Hs as Ht. subst t. cbn [app]. rewrite rstrip0_zeros. reflexivity.
+    + injection Hs as Ht. rewrite (IH k Ht).
+      rewrite <- Ht. reflexivity.
+Qed.
+
+(* ------------------------------------------------------------------------- *)
+(* UTF-8 validity survives zero padding                                       *)
+(* ------------------------------------------------------------------------- *)
+Lemma utf8_zeros : forall k j, utf8_valid_fuel (j + k) (zeros k) = true.
+Proof.
+  intros k. induction k as [|k IH]; intros j.
+  - destruct (j + 0)%nat; reflexivity.
+  - rewrite zeros_S. replace (j + S k)%nat with (S (j + k)) by lia.
+    cbn [utf8_valid_fuel]. change (0 <? 128) with true. cbv iota. apply IH.
+Qed.
+
+Lemma utf8_app_zeros : forall f s k,
+  utf8_valid_fuel f s = true -> utf8_valid_fuel (f + k) (s ++ zeros k) = true.
+Proof.
+  intros f. induction f as [|f IH]; intros s k Hs.
+  - destruct s as [|b t]; [|discriminate]. apply (utf8_zeros k 0).
+  - destruct s as [|b0 t].
+    + apply (utf8_zeros k (S f)).
+    + cbn [Nat.add app utf8_valid_fuel] in *.
+      repeat match goal with
+      | |- context [if ?c then _ else _] =>
+          match type of Hs with context [if c then _ else _] => idtac end;
+          destruct c eqn:?
+      end;
+      try discriminate;
+      try (apply IH; exact Hs);
+      destruct t as [|b1 t]; try discriminate;
+      try (cbn [app]; apply andb_true_iff in Hs; destruct Hs as [Hc Hs];
+           rewrite Hc; cbn [andb]; apply IH; exact Hs);
+      destruct t as [|b2 t]; try discriminate;
+      try (cbn [app]; apply andb_true_iff in Hs; destruct Hs as [Hc Hs];
+           rewrite Hc; cbn [andb]; apply IH; exact Hs);
+      destruct t as [|b3 t]; try discriminate;
+      try (cbn [app]; apply andb_true_iff in Hs; destruct Hs as [Hc Hs];
+           rewrite Hc; cbn [andb]; apply IH; exact Hs).
+Qed.
+
+Lemma utf8_valid_pad : forall s k, utf8_valid s = true -> utf8_valid (s ++ zeros k) = true.
+Proof.
+  intros s k Hs. unfold utf8_valid in *. rewrite app_length, zeros_length.
+  apply utf8_app_zeros. exact Hs.
+Qed.
+
+(* ------------------------------------------------------------------------- *)
+(* packing the decoded values gives back the bytes                            *)
+(* ------------------------------------------------------------------------- *)
+Definition tw_ok (t : fty) : bool :=
+  match t with
+  | TU w | TI w | TX w => Nat.eqb w 1 || Nat.eqb w 2 || Nat.eqb w 4
+  | _ => true
+  end.
+
+Lemma widths_ok_cons : forall n t r, widths_ok ((n, t) :: r) = tw_ok t && widths_ok r.
+Proof. reflexivity. Qed.
+
+Lemma pack_spec : forall t bs,
+  tw_ok t = true -> List.length bs = width t -> all_bytes bs = true ->
+  pack_item t (spec_value t bs) = Ok (match t with TPad n => zeros n | _ => bs end).
+Proof.
+  intros t bs Hw Hl Hb. pose proof (le_dec_bound bs Hb) as Hbound.
+  destruct t as [w|w|w|n|n]; cbn [width tw_ok] in *; cbn [pack_item spec_value].
+  - subst w. rewrite pack_int_unsigned by lia. rewrite N2Z.id, le_enc_dec by exact Hb. reflexivity.
+  - assert (Hw0 : w <> 0%nat) by lia.
+    destruct (pow256_even w Hw0) as [q [Hq HP]]. subst w.
+    destruct (pow256 (List.length bs) / 2 <=? le_dec bs) eqn:E.
+    + rewrite pack_int_signed by lia.
+      replace (Z.of_N (le_dec bs) - Z.of_N (pow256 (List.length bs)))%Z
+        with (Z.of_N (le_dec bs) + (-1) * Z.of_N (pow256 (List.length bs)))%Z by lia.
+      rewrite Z_mod_plus_full, Z.mod_small by lia.
+      rewrite N2Z.id, le_enc_dec by exact Hb. reflexivity.
+    + rewrite pack_int_signed by lia. rewrite Z.mod_small by lia.
+      rewrite N2Z.id, le_enc_dec by exact Hb. reflexivity.
+  - subst w. rewrite pack_int_unsigned by lia. rewrite N2Z.id, le_enc_dec by exact Hb. reflexivity.
+  - reflexivity.
+  - pose proof (rstrip0_length bs) as Hr.
+    destruct (Nat.ltb n (List.length (rstrip0 bs))) eqn:E; [apply Nat.ltb_lt in E; lia|].
+    subst n. rewrite rstrip0_pad. reflexivity.
+Qed.
+
+Lemma enc_seq : forall l data,
+  widths_ok l = true -> (size l <= List.length data)%nat -> all_bytes data = true ->
+  pack_fields (sdec l data) = Ok (zero_reserved l data).
+Proof.
+  intros l. induction l as [|[n t] r IH]; intros data Hw Hlen Hb.
+  - reflexivity.
+  - rewrite widths_ok_cons in Hw. apply andb_true_iff in Hw. destruct Hw as [Hw0 Hw].
+    rewrite size_cons in Hlen. cbn [sdec pack_fields zero_reserved].
+    rewrite pack_spec;
+      [| exact Hw0 | apply firstn_length_le; lia | apply all_bytes_firstn; exact Hb].
+    cbn [bind]. rewrite IH;
+      [| exact Hw | rewrite skipn_length; lia | apply all_bytes_skipn; exact Hb].
+    cbn [bind]. destruct t; reflexivity.
+Qed.
+
+Lemma enc_dec : forall l data,
+  widths_ok l = true -> List.length data = size l -> all_bytes data = true -> ch_valid l 0 data = true ->
+  encode (spec_decode l 0 data) = Ok (zero_reserved l data).
+Proof.
+  intros l data Hw Hlen Hb _. rewrite spec_decode_seq. cbn [skipn]. unfold encode.
+  apply enc_seq; [exact Hw | lia | exact Hb].
+Qed.
+
+Lemma zero_reserved_length : forall l data,
+  (size l <= List.length data)%nat -> List.length (zero_reserved l data) = size l.
+Proof.
+  intros l. induction l as [|[n t] r IH]; intros data Hlen.
+  - reflexivity.
+  - rewrite size_cons in *. cbn [zero_reserved]. rewrite app_length.
+    rewrite IH by (rewrite skipn_length; lia). f_equal.
+    destruct t; cbn [width] in *; try (apply firstn_length_le; lia). apply zeros_length.
+Qed.
+
+(* ------------------------------------------------------------------------- *)
+(* in-range values pack, and unpack to themselves                             *)
+(* ------------------------------------------------------------------------- *)
+Lemma pack_val_ok : forall t v,
+  tw_ok t = true -> val_ok t v = true ->
+  exists b, pack_item t v = Ok b /\ List.length b = width t
+    /\ (forall rest, unpack_item t (b ++ rest)
+                     = Ok (match t with TPad _ => None | _ => Some v end))
+    /\ match t with TPad _ => v = VInt 0 | _ => True end.
+Proof.
+  intros t v Hw Hv.
+  destruct t as [w|w|w|n|n]; destruct v as [z|s]; cbn [val_ok tw_ok] in *; try discriminate.
+  - destruct (int_roundtrip_gen false w z) as [bs [Hp [Hl [_ Hu]]]]; [lia | lia |].
+    exists bs. cbn [pack_item width unpack_item]. split; [exact Hp|]. split; [exact Hl|].
+    split; [|exact I]. intros rest. rewrite firstn_app_exact by exact Hl. rewrite Hu. reflexivity.
+  - destruct (int_roundtrip_gen true w z) as [bs [Hp [Hl [_ Hu]]]]; [lia | lia |].
+    exists bs. cbn [pack_item width unpack_item]. split; [exact Hp|]. split; [exact Hl|].
+    split; [|exact I]. intros rest. rewrite firstn_app_exact by exact Hl. rewrite Hu. reflexivity.
+  - destruct (int_roundtrip_gen false w z) as [bs [Hp [Hl [_ Hu]]]]; [lia | lia |].
+    exists bs. cbn [pack_item width unpack_item]. split; [exact Hp|]. split; [exact Hl|].
+    split; [|exact I]. intros rest. rewrite firstn_app_exact by exact Hl. rewrite Hu. reflexivity.
+  - exists (zeros n). cbn [pack_item width unpack_item]. split; [reflexivity|].
+    split; [apply zeros_length|]. split; [reflexivity|]. f_equal. lia.
+  - apply andb_true_iff in Hv. destruct Hv as [Hv Heq].
+    apply andb_true_iff in Hv. destruct Hv as [Hv Hbytes].
+    apply andb_true_iff in Hv. destruct Hv as [Hlen Hutf].
+    apply Nat.leb_le in Hlen. apply list_eqb_eq in Heq.
+    exists (s ++ zeros (n - List.length s)). cbn [pack_item width unpack_item].
+    assert (Hl : List.length (s ++ zeros (n - List.length s)) = n).
+    { rewrite app_length, zeros_length. lia. }
+    split.
+    { destruct (Nat.ltb n (List.length s)) eqn:E; [apply Nat.ltb_lt in E; lia | reflexivity]. }
+    split; [exact Hl|]. split; [|exact I]. intros rest.
+    destruct (Nat.ltb (List.length ((s ++ zeros (n - List.length s)) ++ rest)) n) eqn:E.
+    { apply Nat.ltb_lt in E. rewrite app_length in E. lia. }
+    rewrite firstn_app_exact by exact Hl.
+    rewrite utf8_valid_pad by exact Hutf. rewrite rstrip0_app_zeros by exact Heq. reflexivity.
+Qed.
+
+Lemma dec_enc_gen : forall fs,
+  fields_ok fs = true -> widths_ok (layout_of fs) = true ->
+  exists data, pack_fields fs = Ok data /\ List.length data = size (layout_of fs)
+    /\ forall rest, unpack_fields (fresh_fields (layout_of fs)) (data ++ rest) = Ok (fs, rest).
+Proof.
+  intros fs. induction fs as [|[[n t] v] r IH]; intros Hok Hw.
+  - exists []. split; [reflexivity|]. split; [reflexivity|]. intros rest. reflexivity.
+  - change (layout_of ((n, t, v) :: r)) with ((n, t) :: layout_of r) in *.
+    rewrite widths_ok_cons in Hw. apply andb_true_iff in Hw. destruct Hw as [Hw0 Hw].
+    unfold fields_ok in Hok. cbn [forallb fst snd] in Hok.
+    apply andb_true_iff in Hok. destruct Hok as [Hv Hok].
+    destruct (IH Hok Hw) as [dr [Hpr [Hlr Hur]]].
+    destruct (pack_val_ok t v Hw0 Hv) as [b [Hpb [Hlb [Hub Hpad]]]].
+    exists (b ++ dr). cbn [pack_fields]. rewrite Hpb, Hpr. cbn [bind].
+    split; [reflexivity|]. split; [rewrite app_length, size_cons; lia|].
+    intros rest.
+    change (fresh_fields ((n, t) :: layout_of r))
+      with ((n, t, default_val t) :: fresh_fields (layout_of r)).
+    cbn [unpack_fields]. rewrite <- app_assoc. rewrite Hub. cbn [bind].
+    rewrite skipn_app_exact by exact Hlb. rewrite Hur. cbn [bind].
+    destruct t; try reflexivity. rewrite Hpad. reflexivity.
+Qed.
+
+Lemma dec_enc : forall fs,
+  fields_ok fs = true -> widths_ok (layout_of fs) = true ->
+  exists data, encode fs = Ok data /\ List.length data = size (layout_of fs)
+               /\ decode (KFixed (layout_of fs)) data = Ok fs.
+Proof.
+  intros fs Hok Hw. destruct (dec_enc_gen fs Hok Hw) as [data [Hp [Hl Hu]]].
+  exists data. split; [exact Hp|]. split; [exact Hl|].
+  unfold decode. specialize (Hu []). rewrite app_nil_r in Hu. rewrite Hu. reflexivity.
+Qed.
+
+(* ------------------------------------------------------------------------- *)
+(* read-modify-write is local                                                 *)
+(* ------------------------------------------------------------------------- *)
+Lemma field_pos_shift : forall l name off,
+  field_pos l name off
+  = match field_pos l name 0 with Some (o, w) => Some ((off + o)%nat, w) | None => None end.
+Proof.
+  intros l name. induction l as [|[n t] r IH]; intros off.
+  - reflexivity.
+  - cbn [field_pos]. destruct (String.eqb n name).
+    + rewrite Nat.add_0_r. reflexivity.
+    + rewrite (IH (off + width t)%nat), (IH (0 + width t)%nat).
+      destruct (field_pos r name 0) as [[o w]|]; [|reflexivity].
+      f_equal. f_equal. lia.
+Qed.
+
+Lemma unique_head_notin : forall n (t0 : fty) (r : layout) name (t : fty),
+  names_unique (map fst ((n, t0) :: r)) = true ->
+  String.eqb n name = true -> In (name, t) r -> False.
+Proof.
+  intros n t0 r name t Hu En Hin. cbn [map fst names_unique] in Hu.
+  apply andb_true_iff in Hu. destruct Hu as [Hu _].
+  assert (Hex : existsb (String.eqb n) (map fst r) = true).
+  { apply existsb_exists. exists name. split; [|exact En].
+    change name with (fst (name, t)). apply in_map. exact Hin. }
+  rewrite Hex in Hu. discriminate.
+Qed.
+
+Lemma piece_length : forall t data, (width t <= List.length data)%nat ->
+  List.length (match t with TPad n => zeros n | _ => firstn (width t) data end) = width t.
+Proof.
+  intros t data Hlen. destruct t; cbn [width] in *; try (apply firstn_length_le; exact Hlen).
+  apply zeros_length.
+Qed.
+
+Lemma edit_seq : forall l data name v off w t,
+  widths_ok l = true -> (size l <= List.length data)%nat -> all_bytes data = true ->
+  names_unique (map fst l) = true ->
+  field_pos l name 0 = Some (off, w) -> In (name, t) l -> val_ok t v = true ->
+  exists data', pack_fields (setf (sdec l data) name v) = Ok data'
+    /\ List.length data' = size l
+    /\ firstn off data' = firstn off (zero_reserved l data)
+    /\ skipn (off + w) data' = skipn (off + w) (zero_reserved l data).
+Proof.
+  intros l. induction l as [|[n t0] r IH]; intros data name v off w t Hw Hlen Hb Hu Hpos Hin Hv.
+  - discriminate.
+  - rewrite widths_ok_cons in Hw. apply andb_true_iff in Hw. destruct Hw as [Hw0 Hw].
+    rewrite size_cons in *.
+    assert (Hpl := piece_length t0 data ltac:(lia)).
+    cbn [field_pos] in Hpos. cbn [sdec setf zero_reserved].
+    destruct (String.eqb n name) eqn:En.
+    + injection Hpos as Hoff Hwid. subst off w.
+      assert (Ht : t0 = t).
+      { destruct Hin as [Heq|Hin']; [injection Heq as _ Heq; exact Heq|].
+        exfalso. exact (unique_head_notin n t0 r name t Hu En Hin'). }
+      subst t0.
+      destruct (pack_val_ok t v Hw0 Hv) as [b [Hpb [Hlb _]]].
+      exists (b ++ zero_reserved r (skipn (width t) data)).
+      cbn [pack_fields]. rewrite Hpb. cbn [bind].
+      rewrite enc_seq; [| exact Hw | rewrite skipn_length; lia | apply all_bytes_skipn; exact Hb].
+      cbn [bind]. split; [reflexivity|].
+      split; [rewrite app_length, zero_reserved_length by (rewrite skipn_length; lia); lia|].
+      split; [reflexivity|].
+      cbn [Nat.add]. rewrite skipn_app_exact by exact Hlb.
+      rewrite skipn_app_exact by exact Hpl. reflexivity.
+    + rewrite field_pos_shift in Hpos.
+      destruct (field_pos r name 0) as [[o w']|] eqn:Hp0; [|discriminate].
+      injection Hpos as Hoff Hwid. subst off w'. cbn [Nat.add].
+      assert (Hin' : In (name, t) r).
+      { destruct Hin as [Heq|Hin']; [|exact Hin'].
+        injection Heq as Hn _. subst n. rewrite String.eqb_refl in En. discriminate. }
+      assert (Hu' : names_unique (map fst r) = true).
+      { cbn [map fst names_unique] in Hu. apply andb_true_iff in Hu. destruct Hu as [_ Hu]. exact Hu. }
+      destruct (IH (skipn (width t0) data) name v o w t) as [d [Hpd [Hld [Hfd Hsd]]]];
+        [exact Hw | rewrite skipn_length; lia | apply all_bytes_skipn; exact Hb
+        | exact Hu' | exact Hp0 | exact Hin' | exact Hv |].
+      cbn [pack_fields].
+      rewrite pack_spec;
+        [| exact Hw0 | apply firstn_length_le; lia | apply all_bytes_firstn; exact Hb].
+      rewrite Hpd. cbn [bind].
+      exists ((match t0 with TPad n0 => zeros n0 | _ => firstn (width t0) data end) ++ d).
+      split; [destruct t0; reflexivity|].
+      split; [rewrite app_length; lia|].
+      split.
+      * rewrite !firstn_app_add by exact Hpl. rewrite Hfd. reflexivity.
+      * rewrite <- !Nat.add_assoc. rewrite !skipn_app_add by exact Hpl. exact Hsd.
+Qed.
+
+Lemma edit_local : forall l data name v off w,
+  widths_ok l = true -> List.length data = size l -> all_bytes data = true -> ch_valid l 0 data = true ->
+  names_unique (map fst l) = true ->
+  field_pos l name 0 = Some (off, w) ->
+  (exists t, In (name, t) l /\ val_ok t v = true) ->
+  exists data', encode (setf (spec_decode l 0 data) name v) = Ok data'
+    /\ List.length data' = List.length data
+    /\ firstn off data' = firstn off (zero_reserved l data)
+    /\ skipn (off + w) data' = skipn (off + w) (zero_reserved l data).
+Proof.
+  intros l data name v off w Hw Hlen Hb _ Hu Hpos [t [Hin Hv]].
+  rewrite spec_decode_seq. cbn [skipn]. unfold encode. rewrite Hlen.
+  apply (edit_seq l data name v off w t); try assumption. lia.
+Qed.
+
+Lemma zero_reserved_pos_seq : forall l data name off w t,
+  (size l <= List.length data)%nat -> names_unique (map fst l) = true ->
+  field_pos l name 0 = Some (off, w) -> In (name, t) l ->
+  match t with TPad _ => True | _ => slice (zero_reserved l data) off w = slice data off w end.
+Proof.
+  intros l. induction l as [|[n t0] r IH]; intros data name off w t Hlen Hu Hpos Hin.
+  - discriminate.
+  - rewrite size_cons in *.
+    assert (Hpl := piece_length t0 data ltac:(lia)).
+    cbn [field_pos] in Hpos.
+    destruct (String.eqb n name) eqn:En.
+    + injection Hpos as Hoff Hwid. subst off w.
+      assert (Ht : t0 = t).
+      { destruct Hin as [Heq|Hin']; [injection Heq as _ Heq; exact Heq|].
+        exfalso. exact (unique_head_notin n t0 r name t Hu En Hin'). }
+      subst t0.
+      destruct t as [k|k|k|k|k]; try exact I; unfold slice; cbn [zero_reserved skipn width] in *;
+        rewrite firstn_app_exact by exact Hpl; reflexivity.
+    + rewrite field_pos_shift in Hpos.
+      destruct (field_pos r name 0) as [[o w']|] eqn:Hp0; [|discriminate].
+      injection Hpos as Hoff Hwid. subst off w'. cbn [Nat.add].
+      assert (Hin' : In (name, t) r).
+      { destruct Hin as [Heq|Hin']; [|exact Hin'].
+        injection Heq as Hn _. subst n. rewrite String.eqb_refl in En. discriminate. }
+      assert (Hu' : names_unique (map fst r) = true).
+      { cbn [map fst names_unique] in Hu. apply andb_true_iff in Hu. destruct Hu as [_ Hu]. exact Hu. }
+      assert (Hlen' : (size r <= List.length (skipn (width t0) data))%nat)
+        by (rewrite skipn_length; lia).
+      specialize (IH (skipn (width t0) data) name o w t Hlen' Hu' Hp0 Hin').
+      destruct t as [k|k|k|k|k]; try exact I; unfold slice in *; cbn [zero_reserved];
+        rewrite skipn_app_add by exact Hpl; rewrite skipn_add; exact IH.
+Qed.
+
+Lemma zero_reserved_pos : forall l data name off w t,
+  List.length data = size l -> names_unique (map fst l) = true ->
+  field_pos l name 0 = Some (off, w) -> In (name, t) l ->
+  match t with TPad _ => True | _ => slice (zero_reserved l data) off w = slice data off w end.
+Proof.
+  intros l data name off w t Hlen Hu Hpos Hin.
+  apply (zero_reserved_pos_seq l data name off w t); try assumption. lia.
+Qed.
